@@ -946,7 +946,7 @@ def inputs_of(world, case):
     object the annotation denotes in the defining function's globals and fixed
     marks a value given to annotate (reported verbatim in every mode)."""
     fids = list(case['f'])
-    if case['op'] == 'auto':
+    if case['op'] in ('auto', 'annauto'):
         fids.append(world.funcs[fids[0]]['call']['callee'])
     if case['op'] == 'wauto':
         fids.append(world.funcs[fids[0]]['wraps']['of'])
@@ -1008,7 +1008,7 @@ def aligned_rolecons(world, cases):
 
 def oracle(world, case, mode, ans, alrc=False):
     """Violations of C11 visible on one answer (independent of the model):
-    (key, text, subject) with subject = parameter name id, 'return' or None."""
+    (key, text, subject) with subject = (parameter name id, kind), 'return' or None."""
     out = [(k_, w_, None) for k_, w_ in ans.get('notes', ())]
     if not ans['ok'] or ans.get('broken'):
         return out
@@ -1022,7 +1022,7 @@ def oracle(world, case, mode, ans, alrc=False):
         cand = {p[3] for i in ins for p in i['params'] if p[3] is not None and related((nm, k), p)}
         if sv is not None and sv not in cand:
             out.append(('C11:wrong-context', 'parameter %s reports %s, which no contributing annotation denotes in its defining function\'s globals (possible: %s)' % (
-                name_of(nm), vname(sv), sorted(vname(x) for x in cand)), nm))
+                name_of(nm), vname(sv), sorted(vname(x) for x in cand)), (nm, k)))
             continue
         exact = None
         if not star and len(cons) == 1 and (not multi or al or cons[0][1][1] == 'KO'):
@@ -1040,7 +1040,7 @@ def oracle(world, case, mode, ans, alrc=False):
         if exact is not None and sv != exact[0]:
             key = 'C11:lost' if sv is None else 'C11:wrong-context'
             out.append((key, 'parameter %s reports %s; its annotation denotes %s in the defining function\'s globals' % (
-                name_of(nm), vname(sv), vname(exact[0])), nm))
+                name_of(nm), vname(sv), vname(exact[0])), (nm, k)))
     if ans['svr'] != ins[0]['ret']:
         out.append(('C11:return', 'return annotation reports %s; the first input\'s denotes %s' % (vname(ans['svr']), vname(ins[0]['ret'])), 'return'))
     return out
@@ -1075,6 +1075,10 @@ def raw_class_pair(world, case, mode, names=None):
     annotations compare differently from the objects they denote, in this mode
     (the negation of the hypothesis of C11_pep563_partial), or None.  With
     names: only pairs that involve one of these parameter names."""
+    if case['op'] == 'annauto' and not case.get('kwos'):
+        # discovery of a plain function conciles the function's OWN annotations (see
+        # C11:annotate-lost-in-discovery), not the values given to annotate
+        case = {'op': 'auto', 'f': case['f']}
     ins = inputs_of(world, case)
 
     def raw(i, p):
@@ -1114,7 +1118,7 @@ def show_case(world, case):
                 '%s=v%d' % (SPELL[s], o) for s, o in sorted(world.bindings[sp['mod']].items()) if s < NNAMES), sib)
     extra = {k: v for k, v in case.items() if k not in ('f', 'op', 'prime')}
     fids = list(case['f'])
-    if case['op'] == 'auto':
+    if case['op'] in ('auto', 'annauto'):
         fids.append(world.funcs[fids[0]]['call']['callee'])
     for f in list(fids):
         if world.funcs[f].get('wraps') and world.funcs[f]['wraps']['of'] not in fids:
@@ -1155,7 +1159,7 @@ def examine(world, cases, rep=None):
             for key, what, subject in oracle(world, c, m, row[m], alrc.get(ci, False)):
                 if key in WRAPS_SYMPTOMS and agree[m] and wraps_involved(world, c):
                     key = WRAPS_KEY
-                elif agree[m] and annotate_lost(c, key, subject):
+                elif agree[m] and annotate_lost(world, c, key, subject):
                     key = ANNOT_KEY
                 viol.append((key, '[mode %s] %s -> %s: %s' % (m, show_case(world, rcases[ci]), row[m].get('text'), what), rcases[ci]))
         stats['ok' if row['e']['ok'] else 'err'] += 1
@@ -1197,7 +1201,7 @@ def wraps_involved(world, case):
     return False
 
 
-def annotate_lost(case, key, subject):
+def annotate_lost(world, case, key, subject):
     """the delimited class of C11:annotate-lost-in-discovery: modifiers.annotate was applied to a
     PLAIN function (no translator underneath) that automatic discovery then resolves, and the
     symptom is that a parameter named in annotate( ...) / the return annotation given to annotate
@@ -1207,10 +1211,15 @@ def annotate_lost(case, key, subject):
         return False
     if key not in ('C11:lost', 'C11:wrong-context', 'C11:return'):
         return False
+    if subject == 'return':
+        return case['retv'] is not None
+    if subject is None:
+        return False
     given = {x for x, v in case['anns']}
-    if case['retv'] is not None:
-        given.add('return')
-    return subject in given
+    # a star parameter of the result stands for the function's own star parameter of that kind
+    # whatever its name (it is conciled with the callee's star parameter, which gives the name)
+    star_kinds = {k for nm, k, de, sp in world.funcs[case['f'][0]]['params'] if nm in given and k in ('VP', 'VK')}
+    return subject[0] in given or subject[1] in star_kinds
 
 
 def case_key(world, c):
@@ -1332,4 +1341,18 @@ _WF = [{'fid': 100, 'mod': 0, 'params': [[1, 'PK', None, 0]], 'ret': 0, 'group':
 WRAPS_WITNESS = {'cases': [
     {'bindings': _WB, 'funcs': _WF, 'case': {'op': 'sig', 'f': [101]}},
     {'bindings': _WB, 'funcs': _WF, 'case': {'op': 'wauto', 'f': [101]}},
+]}
+
+
+# witness of the known finding C11:annotate-lost-in-discovery:
+#   module 0:  def f100(x, y, *, z)
+#   module 3:  @modifiers.annotate(v3, a=v2)  def f101(a, *args, **kwargs): return cm0.f100(*args, **kwargs)
+# sigtools.signature(f101) is (a, x, y, *, z): neither a: v2 nor the return annotation v3
+_AF = [{'fid': 100, 'mod': 0, 'params': [[14, 'PK', None, None], [15, 'PK', None, None], [16, 'KO', None, None]],
+        'ret': None, 'group': 'B', 'call': None},
+       {'fid': 101, 'mod': 3, 'params': [[1, 'PK', None, None], [9, 'VP', None, None], [10, 'VK', None, None]],
+        'ret': None, 'group': 'W',
+        'call': {'callee': 100, 'cmod': 0, 'n': 0, 'kw': [], 'va': 'args', 'vk': 'kwargs'}}]
+ANNOT_WITNESS = {'cases': [
+    {'bindings': _WB, 'funcs': _AF, 'case': {'op': 'annauto', 'f': [101], 'anns': [[1, 2]], 'retv': 3}},
 ]}
